@@ -63,8 +63,9 @@ fn one_stream(ctx: &Ctx, acc: &mut Acc, l: L, lang: &text2num::Language, syms: &
         }
     }
     // clause 2: a phrase the validator accepts is seen by the scanner as exactly one number with the same digits
-    let only_words = syms.iter().all(|w| w.chars().any(|c| c.is_alphanumeric()));
-    if only_words && !hinted {
+    // (punctuation symbols stay in the phrase: a validator that looks through them accepts what the scanner splits)
+    let no_blank_symbol = syms.iter().all(|w| !w.trim().is_empty());
+    if no_blank_symbol && !hinted {
         let phrase = syms.join(" ");
         acc.traces += 1;
         acc.transitions += syms.len() as u64;
@@ -79,6 +80,49 @@ fn one_stream(ctx: &Ctx, acc: &mut Acc, l: L, lang: &text2num::Language, syms: &
                     clause: "validate(p) = Ok(d) => scan(p,0) = [one occurrence with text d]".into(),
                     expected: format!("scanner: exactly one occurrence with text {d}"),
                     observed: format!("validate = Ok({d}); scan = {}", stream::show_occs(&occs)),
+                });
+            }
+        }
+    }
+    // clause 2c: "two numbers that do not combine are never validated as one", the instance that needs no speller:
+    // a phrase that names the thousands twice (the bare thousand word, or a word containing it) is two numbers
+    if !hinted {
+        let th = vocab::cls(l).thousand;
+        let th_stem: &str = match l {
+            L::It => "mil", // mille / mila / -mila
+            _ => th.as_str(),
+        };
+        let high = |w: &str| -> bool {
+            let w = w.to_lowercase();
+            ["milli", "millón", "millon", "milh", "milio", "miljo", "miljard", "miliard", "bill", "bilh", "bili", "biljo"].iter().any(|s| w.contains(s))
+        };
+        let names_thousands = |w: &str| -> bool { w.to_lowercase().contains(th_stem) && !high(w) };
+        // two words naming the thousands with no million / milliard word between them
+        let mut naming = 0;
+        let mut last: Option<usize> = None;
+        for (i, w) in syms.iter().enumerate() {
+            if names_thousands(w) {
+                if let Some(j) = last {
+                    if !syms[j + 1..i].iter().any(|x| high(x)) {
+                        naming = 2;
+                    }
+                }
+                last = Some(i);
+            }
+        }
+        if naming >= 2 {
+            let phrase = syms.join(" ");
+            acc.traces += 1;
+            let v = t2d(&phrase, lang);
+            if v.starts_with("Ok(") {
+                ctx.report(acc, Violation {
+                    lang: l.code().into(),
+                    entry: "text2digits".into(),
+                    input: phrase,
+                    threshold: None,
+                    clause: "two numbers that do not combine are never validated as one: a phrase naming the thousands twice with no higher scale word in between".into(),
+                    expected: "Err".into(),
+                    observed: v,
                 });
             }
         }
